@@ -5,6 +5,9 @@ import (
 	"fmt"
 	"time"
 
+	"gitlab.com/gomidi/midi/v2"
+	"gitlab.com/gomidi/midi/v2/drivers"
+
 	"verif/harness/gen"
 	"verif/harness/mon"
 )
@@ -23,7 +26,7 @@ func init() {
 			"testdrv time stamps carry one constant offset per session (Listen stamps the real clock, Sleep moves a virtual one): the monitor requires one offset in [-60 s, 0] consistent with every delivery; exact stamps are decided at the drivers.Reader level",
 			"F8..FF are all treated as real-time (delivered as one-byte messages)",
 		},
-		Require:         []string{"runs_l1", "runs_l2", "elisions", "rt_inside_message", "rt_inside_sysex", "sysex_exact_buffer", "split_inside_message", "deliveries_checked", "generator_crosschecks", "sysex_sweep_lengths", "sandwich_chunks", "reconfigured_sessions", "clock_wrap_streams", "giant_sysex_streams", "stall_runs_over_2s", "pauses_over_1s_inside_a_message", "pauses_over_1s_inside_a_sysex"},
+		Require:         []string{"runs_l1", "runs_l2", "elisions", "rt_inside_message", "rt_inside_sysex", "sysex_exact_buffer", "split_inside_message", "deliveries_checked", "generator_crosschecks", "sysex_sweep_lengths", "sandwich_chunks", "reconfigured_sessions", "clock_wrap_streams", "giant_sysex_streams", "nested_runs_l1", "nested_runs_l2", "nested_rest_starts_in_running_status", "stall_runs_over_2s", "pauses_over_1s_inside_a_message", "pauses_over_1s_inside_a_sysex"},
 		FakeTimeWorkers: 2,
 		Run:             runC04,
 	})
@@ -456,6 +459,109 @@ func runC04(c *mon.Ctx) {
 			c.Violation("l1-giant-sysex", fmt.Sprintf("a sysex of %d bytes under SysExBufferSize %d: delivered message lengths %v, expected [3 %d 1 3]", n, buf, lens, n), in, []int{3, n, 1, 3}, lens)
 		}
 		c.DistinctBytes([]byte(fmt.Sprint("giant", n)))
+	})
+
+	// re-entrant delivery: the rest of the stream is delivered from inside the listener callback of one of
+	// its messages (a thru / harmoniser rule answering on the same loopback), in running status where legal
+	c.Each("nested", c.N(4000, 300_000), func(i int64, r *mon.Rand) {
+		cfg := liveCfg{sysex: true, clock: true, sense: true, buf: uint32(r.Pick(16, 0, 64))}
+		msgs := gen.LiveSequence(r, r.Range(2, 10), cfg.bufSize(), true)
+		w := gen.Serialize(r, msgs, gen.SerOpts{RunningStatus: true, ElideAll: r.Bool(), Realtime: r.P(1, 3)})
+		nd := len(w.Deliveries)
+		if nd < 2 {
+			return
+		}
+		j := r.Intn(nd - 1) // the delivery whose callback delivers the rest
+		cut := w.EndIdx[j] + 1
+		for k := range w.EndIdx {
+			if k != j && w.StartIdx[k] < cut && w.EndIdx[k] >= cut {
+				return // another message straddles the cut (real-time inside): not a clean hand-over point
+			}
+		}
+		first, rest := w.Bytes[:cut], w.Bytes[cut:]
+		if len(rest) == 0 {
+			return
+		}
+		bytewise := r.Bool()
+		in := map[string]any{"bytes": mon.Hex(w.Bytes), "delivered_from_outside": mon.Hex(first), "delivered_from_inside_the_callback_of": mon.Hex(w.Deliveries[j]), "rest": mon.Hex(rest), "rest_byte_by_byte": bytewise, "config": cfg.String()}
+		feedRest := func(feed func([]byte)) {
+			if bytewise {
+				for q := range rest {
+					feed(rest[q : q+1])
+				}
+			} else {
+				feed(rest)
+			}
+		}
+		cmp := func(level string, got [][]byte) {
+			if len(got) != nd {
+				c.Violation(level+"-nested-count", fmt.Sprintf("%s: %d messages put on the wire (the last %d from inside a listener callback), %d delivered", level, nd, nd-j-1, len(got)), in, mon.HexList(w.Deliveries), mon.HexList(got))
+				return
+			}
+			// the callback of message j runs until the nested deliveries are done: every message still arrives
+			// exactly once, those before j first, j itself before the nested ones
+			for k := range got {
+				if !bytes.Equal(got[k], w.Deliveries[k]) {
+					c.Violation(level+"-nested-content", fmt.Sprintf("%s: delivery %d is %s, message put on the wire was %s (bytes after message %d were delivered from inside its callback)", level, k, mon.Hex(got[k]), mon.Hex(w.Deliveries[k]), j), in, mon.HexList(w.Deliveries), mon.HexList(got))
+					return
+				}
+			}
+			c.Count("nested_deliveries_checked", int64(nd-j-1))
+		}
+		// level 1: drivers.Reader
+		{
+			var got [][]byte
+			var rd *drivers.Reader
+			n := 0
+			fired := false
+			rd = drivers.NewReader(drivers.ListenConfig{SysEx: cfg.sysex, SysExBufferSize: cfg.buf, TimeCode: true, ActiveSense: true}, func(m []byte, ts int32) {
+				_, norm := normL1(m)
+				got = append(got, append([]byte(nil), norm...))
+				n++
+				if n == j+1 && !fired {
+					fired = true
+					feedRest(func(b []byte) { rd.EachMessage(b, 1) })
+				}
+			})
+			if !c.Guard("panic:reader-nested", in, func() { rd.EachMessage(first, 1) }) {
+				c.Count("nested_runs_l1", 1)
+				if w.Deliveries[j][0] < 0xF0 && rest[0] < 0x80 {
+					c.Count("nested_rest_starts_in_running_status", 1)
+				}
+				cmp("l1", got)
+			}
+		}
+		// level 2: midi.ListenTo on the loopback, the callback sends on the same port
+		if i%2 == 0 {
+			l := newL2()
+			var got [][]byte
+			n := 0
+			fired := false
+			var sendErr error
+			stop, err := midi.ListenTo(l.in, func(m midi.Message, ts int32) {
+				got = append(got, append([]byte(nil), m...))
+				n++
+				if n == j+1 && !fired {
+					fired = true
+					feedRest(func(b []byte) {
+						if e := l.out.Send(b); e != nil && sendErr == nil {
+							sendErr = e
+						}
+					})
+				}
+			}, l.opts(cfg)...)
+			if err == nil {
+				if !c.Guard("panic:listento-nested", in, func() { l.out.Send(first); stop() }) {
+					c.Count("nested_runs_l2", 1)
+					if sendErr != nil {
+						c.Violation("l2-send-error", fmt.Sprintf("Send from inside the listener callback returned %v", sendErr), in, nil, sendErr.Error())
+					} else {
+						cmp("l2", got)
+					}
+				}
+			}
+		}
+		c.DistinctBytes(w.Bytes, []byte(fmt.Sprint("nested", j, bytewise, cfg)))
 	})
 
 	// real pauses between the deliveries (workers on the virtual process clock): seconds, minutes,
